@@ -53,7 +53,7 @@ ASSUMPTIONS = ["would-block / timeout conditions are injected on sockets only: p
                "a reader still running after the writer thread has written everything and closed is judged a violation "
                "(all data was available); any other missed watchdog is inconclusive"]
 SHARDS = {"quick": 1, "thorough": 16}
-MIN_DISTINCT = {"quick": 4000, "thorough": 50000}
+MIN_DISTINCT = {"quick": 4000, "thorough": 200000}
 
 HDR = 5
 MiB = 1 << 20
@@ -938,7 +938,7 @@ def run(ctx):
     ctx.maximum("seconds_cut_short", round(time.time() - t_sec, 1))
     t_sec = time.time()
     # ---- 3. long sequences: cut at every write/frame boundary (+-1, header bytes) and sampled offsets -------
-    n_long = ctx.budget(110, 16000)
+    n_long = ctx.budget(110, 12000)
     n_sampled = 40 if ctx.quick else 2000
     for i in range(n_long):
         pks = gen_packets(rng, small, large, 300000, zc=zc)
@@ -1007,7 +1007,7 @@ def run(ctx):
     # ---- 5. kernel transports -------------------------------------------------------------------------------
     big = 200000 if ctx.quick else MiB
     wait = 40 if ctx.quick else 120
-    n_real = ctx.budget(500, 32000)
+    n_real = ctx.budget(500, 64000)
     t_real = time.time()
     for i in range(n_real):
         t = ("pipe", "sockpair", "pipe", "sockpair", "tcp")[i % 5]
